@@ -570,3 +570,23 @@ def flag_sets(rng, n, names):
         k = rng.choice([1, 2, 2, 3, 4, 6, len(names) - 1])
         out.append(",".join(sorted(rng.sample(list(names), min(k, len(names))))))
     return out
+
+
+def tap_push_orders(rng):
+    """tapscripts that are valid but for ONE push over 520 bytes, the oversized push standing first, in the middle or last
+    among pushes within the limit, executed or inside an untaken branch, with and without an OP_SUCCESSx behind them (which
+    makes the whole script valid): where the pre-scan's `an element was too long` has to survive the pushes that follow"""
+    def pd(n):
+        return push(bytes(rng.randrange(256) for _ in range(n)))
+    out = []
+    for big in (521, 522, 523 + rng.randrange(400), 65535):
+        for small in (1, 75, 76, 255, 256, 519, 520):
+            b, s_ = pd(big), pd(small)
+            drop = b"\x75"
+            out.append(b + drop + s_ + drop + b"\x51")                       # oversized first
+            out.append(s_ + drop + b + drop + b"\x51")                       # oversized last
+            out.append(s_ + drop + b + drop + pd(small) + drop + b"\x51")    # oversized in the middle
+            out.append(b"\x00\x63" + b + b"\x68" + s_ + drop + b"\x51")     # oversized in an untaken branch, a push after it
+            out.append(b"\x00\x63" + s_ + b + b"\x68" + b"\x51")            # … as the last push
+            out.append(b + drop + s_ + drop + b"\x51" + b"\x50")             # an OP_SUCCESSx after them: valid
+    return out
